@@ -341,6 +341,19 @@ def check(ctx, rep):
             if not good and util.is_call(x) and x[1].endswith("::index") and x[2][1][0] == "agg" and x[2][1][2] == "std::ops::Range":
                 lo, hi = [util.numnorm(y) for y in x[2][1][4]]
                 good = lo[:2] == ("int", 0) and hi[:2] == ("int", n)
+            elif not good and util.is_call(x) and x[1].endswith("::index") and x[2][1][0] == "agg" and x[2][1][2] == "std::ops::RangeTo":
+                good = util.numnorm(x[2][1][4][0])[:2] == ("int", n)         # buf[..n]
+            elif not good and util.is_call(x) and x[1].endswith("::index") and x[2][1][0] == "agg" and x[2][1][2] == "std::ops::RangeToInclusive":
+                good = util.numnorm(x[2][1][4][0])[:2] == ("int", n - 1)     # buf[..=n-1]
+            if good and util.is_call(x) and x[1].endswith("::index"):
+                # ... of the output buffer
+                def peel_(y):
+                    y = strip(y)
+                    while y[0] in ("after", "upd", "deref"):
+                        y = strip(y[3] if y[0] == "after" else y[1])
+                    return y
+                b_ = peel_(x[2][0])
+                good = b_[0] == "field" and b_[2] == shf and peel_(b_[1]) == ("param", 1)
         rep.check(good, "encoder", fn, arm + "-returned-slice", "returns exactly the %d emitted bytes" % n, "%s form does not return exactly the first %d bytes of the output buffer" % (arm, n), body.loc())
     n_raw = {arm: sum(1 for i in arm_se[arm].term_info.values() if i.get("k") == "call" and (i["name"] in (ENC + "::encrypt", IC + "::apply") or (i["name"] in fb.bodies and store_helper(ctx, i["name"]) is not None))) for arm in arm_se}
     rep.check(all(v == 1 for v in n_raw.values()), "stream-step", fn, "one-raw-per-arm", "each arm applies the raw operation once", "raw operations per arm of the encoder: %s" % n_raw, body.loc())
